@@ -19,7 +19,7 @@ META = {
         "R3 (PROV): the cost offset handed to add_acquisition in the day loop is the pre-pass entry at the same transaction "
         "index that identifies the lot and reaches the lot unmodified (only unwrapped / copied / defaulted); pooling adds to pool.total_cost the cost returned for the pooled quantity. R4: the "
         "ledger's same-day consumption averages with ONE weight per lot — Σ(w × unit cost) ÷ Σ(w) with w the lot's availability — "
-        "so the cost attributed is the cost of the shares actually debited. Does not decide the sum identity over a history. R6 also: the apportioning formula itself — each lot receives adjustment × held ÷ total held, with no cap or floor on a lot's share (shared with C11-R4)."),
+        "so the cost attributed is the cost of the shares actually debited. Does not decide the sum identity over a history. R6 also: the apportioning formula itself — each lot receives adjustment × held ÷ total held, with no cap or floor on a lot's share (shared with C11-R4). R4 also: every lot is debited its availability times a loop-invariant ratio. R6 also: a lot is restated whole or not at all (shared with C10-R6)."),
     "trusted_base": ["rust_decimal arithmetic is exact enough that equal terms denote equal values", "rustc MIR + resolution"],
 }
 
@@ -394,26 +394,27 @@ def pro_rata_debits(R, rep, rule="R4", b=None):
               and t["callee"].startswith("cgt_core::matcher::acquisition_ledger::AcquisitionLedger::")
               and (t["callee"] in debit_fns or any(c in debit_fns for c in F.callgraph().get(t["callee"], ())))]
         if len(cs) != 1:
-            rep.unresolved(rule, "SAMEDAY-CONSUME", f"{len(cs)} ledger methods consume lots and return a cost for the same-day rule")
+            rep.note(f"{rule}: {len(cs)} ledger methods consume lots and return a cost for the same-day rule — pro-rata depletion not judged")
             return
         b = cs[0]
-    tb = R.terms(b, 0)
     debit = {w[0].parent or w[0].id for w in R.field_writes(LOT, "consumed") if w[2] != "construct"}
     n = 0
-    for i, t in b.calls():
+    rg = R.region(b)
+    for it in rg.items:
+        t, hb, i = it["term"], it["body"], it["bb"]
         if t["callee"] not in debit or len(t["args"]) < 2:
             continue
-        loops = [(h, bl) for h, bl in b.loops() if i in bl]
+        loops = [(h, bl) for h, bl in hb.loops() if i in bl]
         if not loops:
             continue
         h, bl = min(loops, key=lambda x: len(x[1]))
         stepped = set()
-        for j, u in b.calls():
+        for j, u in hb.calls():
             if j in bl and is_decimal_arith_assign(u["callee"]) and u["args"]:
-                r = root_of_operand(b, u["args"][0])
-                if r and not r[1] and b.local_name(r[0]):
-                    stepped.add(b.local_name(r[0]))
-        term = tb.operand(t["args"][1])
+                r = root_of_operand(hb, u["args"][0])
+                if r and not r[1] and hb.local_name(r[0]):
+                    stepped.add(hb.local_name(r[0]))
+        term = R.terms(hb, 0).operand(t["args"][1])
         bad = []
         for x in subterms(term):
             if isinstance(x, tuple) and x and x[0] == "*":
@@ -422,12 +423,13 @@ def pro_rata_debits(R, rep, rule="R4", b=None):
                     if names:
                         bad.append((show(x)[:90], sorted(names)))
         n += 1
-        rep.ob(rule, f"{b.short}:pro-rata-debit", not bad, "each lot is debited its availability × a ratio fixed before the lots are walked" if not bad else
+        rep.ob(rule, f"{hb.short}:pro-rata-debit", not bad, "each lot is debited its availability × a ratio fixed before the lots are walked" if not bad else
                f"a lot is debited {bad[0][0]}: the factor {bad[0][1]} is counted down inside the loop over the day's lots, so the lots are depleted unevenly "
                "while the leg is priced at the day's average — the cost left in the pool depends on the order of the day's purchases",
-               b.loc(t["sp"]), key=f"{rule}:same-day:debit-not-pro-rata")
+               hb.loc(t["sp"]), key=f"{rule}:same-day:debit-not-pro-rata")
     if n < 1:
-        rep.unresolved(rule, "same-day-debit", f"no debit of a lot inside a loop found in {b.short}")
+        # the debit sits in a per-element closure or a helper without a loop of its own: not judged (said, not alarmed — DESIGN 9.9)
+        rep.note(f"{rule}: no debit of a lot inside a loop found in {b.short} and its helpers — pro-rata depletion not judged for this spelling")
 
 
 def run(ctx, rep):
